@@ -141,6 +141,47 @@ theorem reader_selectors_exact (b total : Nat) (hb : 0 < b) (s : List Sel)
 
 example : domain [(3, true), (4, false), (2, true), (5, false)] ≤ 20 := by decide
 
+
+/-- **The mask-cursor path (`read_mask_batch` + `MaskCursor::next_mask_chunk`, no loaded row
+ranges)**, drained: for any mask (trimmed as `ReadPlanBuilder::build` does), any batch size
+`b > 0`, no error occurs, the concatenation of the filtered batches is exactly the selected
+positions in order, and every batch has between 1 and `b` rows.  Together with
+`reader_selectors_exact`: both `RowSelectionPolicy` strategies deliver the same rows. -/
+theorem reader_mask_exact (b total : Nat) (hb : 0 < b) (m : List Bool) (hfit : m.length ≤ total) :
+    ∃ batches, readAll b total (total + 2) (.mask (trimMask m)) 0 = some batches ∧
+      batches.flatten = trueIdx 0 m ∧ ∀ x ∈ batches, 0 < x.length ∧ x.length ≤ b := by
+  have hl := trimMask_length m
+  have := readAll_mask b total hb (total + 2) (trimMask m) 0 (by omega) (trimMask_trimmed m) (by
+    have h1 := trueIdx_length 0 (trimMask m)
+    have h2 := countTrue_le_length (trimMask m)
+    omega)
+  rwa [trimMask_positions] at this
+
+example : ([false, true, true, false, true, false, false] : List Bool).length ≤ 9 := by decide
+
+/-! ## (1b) the mask backing denotes the same operations -/
+
+/-- **`and_then_masks`** (both fast paths and the scatter loop): when it does not panic the
+operand lengths agree and the result is the composition — the same as the selector backing
+(`andThen_composes`). -/
+theorem andThenMasks_composes (m o out : List Bool) (h : andThenMasks m o = some out) :
+    out = compose m o ∧ o.length = Spec.countTrue m := andThenMasks_spec m o out h
+
+/-- **`intersect_masks` / `union_masks`** = pointwise with the longer tail passing through,
+the same rule the selector backing implements (`intersection_pointwise`, `union_pointwise`). -/
+theorem combineMasks_pointwise (f : Bool → Bool → Bool) (a b : List Bool) :
+    combineMasks f a b = zipTail f a b := combineMasks_eq f a b
+
+/-- **`split_off_mask`, `limit_mask`, `offset_mask`, `trim_mask`** agree with the selector
+backing's meaning: partition at `n`; prefix up to the `k`-th selected row; drop the first `k`
+selected positions; same positions. -/
+theorem mask_backing_transforms (m : List Bool) (k : Nat) :
+    ((splitOffMask m k).1 = m.take k ∧ (splitOffMask m k).2 = m.drop k) ∧
+    limitMask m k = keepFirst k m ∧
+    trueIdx 0 (offsetMask m k) = (trueIdx 0 m).drop k ∧
+    trueIdx 0 (trimMask m) = trueIdx 0 m :=
+  ⟨splitOffMask_spec m k, limitMask_spec m k, offsetMask_positions m k, trimMask_positions m⟩
+
 /-! ## (5) offset / limit across row groups -/
 
 /-- **Distributing a global `(offset, limit)` through `RowBudget` across row groups equals
